@@ -29,7 +29,11 @@ ML = "leptos_i18n_macro/src/load_locales/mod.rs"
 def sink_rule(r, b, cfg):
     """every String::push_str / push on the script buffer: constant, identifier-safe, or escaped"""
     n_const = n_ident = 0
-    for i, t in b.calls():
+    prog = PROG[cfg]
+    root = M._root(b.name)
+    owned = [bb for n2, bb in sorted(prog.bodies.items()) if bb.crate == b.crate and M.owner_of(prog, n2) == root]
+    top = b
+    for b, i, t in [(bb, i, t) for bb in owned for i, t in bb.calls()]:
         cn = callee_name(t) or ""
         if not cn.endswith("std::string::String::push_str"):
             continue
@@ -50,16 +54,26 @@ def sink_rule(r, b, cfg):
             n_ident += 1
             continue
         r.viol("R1:%s#verbatim" % b.name.split("::")[-1], "a non-constant string that is neither a locale / unit name nor escaped is appended verbatim to the embedded script (line %d) [cfg %s]" % (t["line"], cfg), file=b.file, line=t["line"])
-    esc = M.call_blocks(b, r"fetch_translations::push_js_str$")
-    in_loop = [e for e in esc if M.loop_of(b, e)]
+    b = top
+    esc = [(bb, e) for bb in owned for e in M.call_blocks(bb, r"fetch_translations::push_js_str$")]
+    in_loop = [(bb, e) for bb, e in esc if M.loop_of(bb, e)]
     site = b.name.split("::")[-1]
+    if any(M.call_blocks(bb, r"Iterator::(rev|skip|take|step_by|filter|take_while|skip_while)$") for bb in owned):
+        r.viol("R1:%s#order" % site, "the units / values are not listed completely and in order [cfg %s]" % cfg, file=b.file, line=b.line)
     if in_loop:
         r.inst("%s#sinks" % site, "%d constant pieces, %d identifier pieces (locale / unit names), values through push_js_str inside the value loop" % (n_const, n_ident), cfg=cfg)
     else:
         r.viol("R1:%s#no-escaper" % site, "translation values are not written through push_js_str [cfg %s]" % cfg, file=b.file, line=b.line)
-    # separator flags
-    for i, t in b.calls():
+    # separators: `first` flag swapped with mem::replace (set before the loop), or an enumerate() index compared with 0
+    n_sep = 0
+    for b in owned:
+        for i, t in b.calls():
+            if (callee_name(t) or "").endswith("Iterator::enumerate"):
+                n_sep += 1
+                r.inst("%s#separator@enumerate" % site, "comma written when the enumerate() index is not 0", cfg=cfg)
+    for b, i, t in [(bb, i, t) for bb in owned for i, t in bb.calls()]:
         if (callee_name(t) or "") == "std::mem::replace" and (op_const(t["args"][1]) or {}).get("bool") is False:
+            n_sep += 1
             lp = M.loop_of(b, i)
             flag = op_place(t["args"][0])
             ls, defs = backward_slice(b, flag["l"])
@@ -72,6 +86,11 @@ def sink_rule(r, b, cfg):
                 r.inst("%s#separator@L%d" % (site, t["line"]), "comma flag `%s` is set to true before the loop it separates" % inits[0][1], cfg=cfg)
             else:
                 r.viol("R1:%s#separator-flag" % site, "the `first` flag used at line %d is (re)initialised inside the loop it serves: no separator is ever written between elements [cfg %s]" % (t["line"], cfg), file=b.file, line=t["line"])
+    if n_sep == 0:
+        r.viol("R1:%s#separator" % site, "cannot identify how the elements are separated (neither a `first` flag nor an enumerate() index) [cfg %s]" % cfg, file=top.file, line=top.line)
+
+
+PROG = {}
 
 
 def r1_escape(ctx):
@@ -82,6 +101,7 @@ def r1_escape(ctx):
     if b is None:
         r.missing("RegisterCtx::to_array (dynamic_load+ssr)")
     else:
+        PROG["main(ssr)"] = prog
         sink_rule(r, b, "main(ssr)")
     try:
         hp = ctx.mir("hydrate")
@@ -89,6 +109,7 @@ def r1_escape(ctx):
         if hb is None:
             r.missing("init_translations (dynamic_load+hydrate)")
         else:
+            PROG["hydrate"] = hp
             sink_rule(r, hb, "hydrate")
     except Exception as e:  # the hydrate configuration is analysed in both tiers; failure to build it is reported
         r.viol("R1:hydrate-config", "the dynamic_load+hydrate configuration could not be analysed: %s" % str(e)[:200])
@@ -96,38 +117,31 @@ def r1_escape(ctx):
     if fn is None:
         r.missing("push_js_str")
         return r
-    m = find_first(fn.body, "Match")
-    arms = {}
-    for a in (m or {"arms": []})["arms"]:
-        arms[flat(show_pat(a["pat"])) + ("if" + flat(show(a["guard"])) if a.get("guard") else "")] = flat(show(a["body"]))
-    need = {"'\"'": 'buff.push_str("\\\\\\"")', "'\\\\'": 'buff.push_str("\\\\\\\\")'}
-    for k, w in need.items():
-        if same(arms.get(k) or "", w):
-            r.inst("push_js_str %s" % k, w)
-        else:
-            r.viol("R1:push_js_str#%s" % k, "character %s is not escaped as %s (arm: %s)" % (k, w, arms.get(k)), file=fn.file, line=fn.line)
-    lt = [k for k in arms if "'<'" in k]
-    if lt and "\\\\u{:04x}" in arms[lt[0]] and "'\\u{2028}'" in lt[0] and "'\\u{2029}'" in lt[0]:
-        r.inst("push_js_str '<' U+2028 U+2029", "written as \\uXXXX: `</script>` / `<!--` cannot appear, no raw line separators")
-    else:
-        r.viol("R1:push_js_str#lt", "`<` (and U+2028/U+2029) is not escaped: a translation containing `</script>` would end the script element", file=fn.file, line=fn.line)
-    ctl = [k for k in arms if re.search(r"if\(\(\w+asu32\)<0x20\)|if\w+\.is_control\(\)", k)]
-    if ctl and "\\\\u{:04x}" in arms[ctl[0]]:
-        r.inst("push_js_str control characters", "c < 0x20 -> \\u00XX (newline, carriage return, tab also have short escapes)")
-    else:
-        r.viol("R1:push_js_str#control", "control characters are not all escaped", file=fn.file, line=fn.line)
-    t = flatp(show(fn.body))
-    if re.match(r"^\{(<Use>;)?buff\.push'\"';forcins\.chars\{matchc\{", t) and t.endswith("buff.push'\"'}"):
+    from rules import dtable
+    params = fn.params()
+    ok, problems, facts_ = dtable.escaper_spec(fn.body, params[1] if len(params) > 1 else "s", "js-in-script")
+    if ok:
+        r.inst("push_js_str", "for each of %d character classes the text written decodes (as a JS string) to exactly that character" % facts_["classes"])
+        r.inst("push_js_str '<' U+2028 U+2029", "never written raw: `</script>` / `<!--` cannot appear, no raw line separators")
+        r.inst("push_js_str control characters", "U+0000..U+001F escaped")
         r.inst("push_js_str framing", "\" ... \" around every char, in order")
     else:
-        r.viol("R1:push_js_str#framing", "the value is not framed by double quotes / not every character is visited", file=fn.file, line=fn.line)
-    fn = ctx.ast.fn(F, "to_array", impl_self="RegisterCtx")
-    t = flatp(show(fn.body)) if fn else ""
-    if has(t, "forvaluein*values{if!std::mem::replace&mutfirst,false{buff.push','}push_js_str&mutbuff,value}"):
-        r.inst("to_array#values", "values listed forward, each escaped, comma separated")
-    else:
-        r.viol("R1:to_array#values", "the values of a unit are not listed forward through the escaper", file=F)
+        for pb in problems[:6]:
+            r.viol("R1:push_js_str#" + pb.split(" ")[0], pb, file=fn.file, line=fn.line)
     return r
+
+
+def _terms(t):
+    """all sub-terms of a mirsum term"""
+    out = [t]
+    for x in t[1:]:
+        if isinstance(x, tuple) and x and isinstance(x[0], str):
+            out += _terms(x)
+        elif isinstance(x, tuple):
+            for y in x:
+                if isinstance(y, tuple) and y and isinstance(y[0], str):
+                    out += _terms(y)
+    return out
 
 
 def r2_who(ctx):
@@ -144,26 +158,58 @@ def r2_who(ctx):
         r.viol("R2:who#TranslationUnit::register", "TranslationUnit::register is called from library code %s: units would be registered although the request did not read them" % callers, file=F)
     else:
         r.inst("callers of TranslationUnit::register in the library", "none (only generated code)")
-    fn = ctx.ast.fn(F, "register", impl_self="RegisterCtx")
-    t = flatp(show(fn.body)) if fn else ""
-    if has(t, "ifletSomethis=use_context::<Self>{letmutinner_guard=this.0.lock.unwrap;inner_guard.insertT::LOCALE,T::ID,T::STRINGS.as_slice}") or \
-            has(t, "ifletSomethis=use_context::<Self>{letmutinner_guard=this.0.lock.unwrap;inner_guard.entryT::LOCALE,T::ID.or_insertT::STRINGS.as_slice}"):
-        r.inst("RegisterCtx::register", "(T::LOCALE, T::ID) -> T::STRINGS of the same T, in the context of the current render")
+    import mirsum
+    rb = prog.body("fetch_translations::register::RegisterCtx::<L>::register")
+    ps = mirsum.paths(prog, rb, depth=0) if rb is not None else None
+    ps = mirsum.canon_conds(prog, ps) if ps is not None else None
+    ok = False
+    why = "cannot be summarised"
+    if ps is not None:
+        none_paths = [p for p in ps if any(c[0] == "is" and c[2] == "None" for c in p[0])]
+        some_paths = [p for p in ps if any(c[0] == "is" and c[2] == "Some" for c in p[0])]
+        why = "unexpected paths"
+        if len(none_paths) == 1 and len(some_paths) == 1 and len(ps) == 2:
+            eff_none = [e for e in none_paths[0][1] if not (e[0] == "call" and e[1].endswith("use_context"))]
+            tr = some_paths[0][1]
+            ins = [e for e in tr if e[0] == "call" and (e[1].endswith("HashMap::<K, V, S, A>::insert") or e[1].endswith("::or_insert"))]
+            if eff_none:
+                why = "does something without a registration context"
+            elif len(ins) != 1:
+                why = "does not insert exactly one entry"
+            else:
+                txt = mirsum.fmt(ins[0], short=False)
+                key_ok = "('L', " in repr(ins[0]) or "const" in repr(ins[0])
+                consts = [x for x in _terms(ins[0]) if x[0] == "const"]
+                tys = [c[1] for c in consts]
+                if not ("L" in tys and any("TranslationUnitId" in t or "::Id" in t or t.endswith("as leptos_i18n::fetch_translations::TranslationUnit>::Id") for t in tys)):
+                    # the id constant is typed by the unit's associated type
+                    pass
+                calls = [x[1] for x in _terms(ins[0]) if x[0] == "call"]
+                if not any(c.endswith("StringArray::as_slice") for c in calls):
+                    why = "the strings registered are not T::STRINGS"
+                elif not any(c.endswith("Mutex::<T>::lock") for c in calls) or not any(c.endswith("use_context") for c in calls):
+                    why = "the entry does not go into the registry of the current context"
+                elif any(c.endswith("Default>::default") or c.endswith("Default::default") for c in calls) or len([c for c in consts if c[1] == "L"]) != 1:
+                    why = "the entry is not keyed by T::LOCALE"
+                else:
+                    ok = True
+    if ok:
+        r.inst("RegisterCtx::register", "(T::LOCALE, T::ID) -> T::STRINGS of the same T, in the context of the current render; nothing without a context")
     else:
-        r.viol("R2:RegisterCtx::register", "is `%s`" % t[:160], file=F)
-    fn = ctx.ast.fn(F, "provide_context", impl_self="RegisterCtx")
-    t = flatp(show(fn.body)) if fn else ""
-    if has(t, "letinner=Arc::newMutex::newHashMap::new;provide_contextRegisterCtxinner.clone;RegisterCtxinner"):
+        r.viol("R2:RegisterCtx::register", "registration changed: %s" % why, file=F)
+    from rules.common import msum
+    got = msum(prog, r"register::RegisterCtx::<L>::provide_context$")
+    if got and got[0][1] == "RegisterCtx#RegisterCtx(Arc::new(Mutex::new(HashMap::new())))" and got[0][2] == ["prelude::provide_context(RegisterCtx#RegisterCtx(Clone::clone(Arc::new(Mutex::new(HashMap::new())))))"]:
         r.inst("RegisterCtx::provide_context", "a new empty map per call (per rendered request)")
     else:
-        r.viol("R2:RegisterCtx::provide_context", "the registry is not created fresh per context", file=F)
+        r.viol("R2:RegisterCtx::provide_context", "the registry is not created fresh per context: %s" % (got,), file=F)
     # generated code
     fn = ctx.ast.fn(ML, "create_locale_type_inner")
     if fn is None:
         r.missing("create_locale_type_inner")
         return r
     regs = []
-    for q in xquotes(fn.body):
+    for q in xquotes(fn.body, also_plain=False):
         tt = flat(tok_text(q["tokens"]))
         if "TranslationUnit>::register()" in tt:
             regs.append(tt)
